@@ -442,6 +442,95 @@ def rdacloop_phase(ctx):
                     "under which completion is reported exactly once")
 
 
+def snmp_run(args):
+    """worker: SNMP.walk_ip against a scripted repeater (puresnmp's client classes replaced, nothing else)"""
+    seed, cases = args
+    import asyncio
+    import contextlib
+    import io
+    import logging
+    import warnings
+    warnings.simplefilter("ignore")
+    logging.disable(logging.CRITICAL)
+    core.setup_repo_path()
+    import puresnmp
+    from okdmr.dmrlib.hytera.snmp import SNMP
+    state = {}
+
+    class Client:
+        def __init__(self, ip, credentials):
+            self.community = credentials.community
+
+    class Wrapper:
+        def __init__(self, client):
+            self.c = client.community
+
+        async def get(self, oid):
+            kind, k = state["env"][self.c]
+            if not state["tried"] or state["tried"][-1] != self.c:
+                state["tried"].append(self.c)
+            state["n"][self.c] = state["n"].get(self.c, 0) + 1
+            if kind != "success" and state["n"][self.c] == k:
+                if kind == "refused":
+                    raise ConnectionRefusedError()
+                await asyncio.sleep(30)
+            return b"\x00\x01" if oid in SNMP.ALL_FLOATS else (b"OK1DMR" if oid in SNMP.ALL_STRINGS else 5)
+    puresnmp.Client, puresnmp.PyWrapper = Client, Wrapper
+    out = []
+    for c, pub, hyt in cases:
+        state.update(env={"public": pub, "hytera": hyt}, tried=[], n={})
+        rec = {"c": c, "pub": list(pub), "hyt": list(hyt), "ret": 0, "tried": [], "out": "ok", "exc": ""}
+        try:
+            with contextlib.redirect_stdout(io.StringIO()), contextlib.redirect_stderr(io.StringIO()):
+                data = asyncio.run(SNMP().walk_ip("10.0.0.1", snmp_community=c, timeout_secs=0.02))
+            rec["ret"] = len(data)
+        except Exception as ex:  # noqa
+            rec["out"], rec["exc"] = "raise", type(ex).__name__
+        rec["tried"] = list(state["tried"])
+        out.append(rec)
+    return out
+
+
+def snmp_phase(ctx):
+    """growth beyond the statement (spec/SNMPWalk.tla): the SNMP read the RDAC handler triggers on completion"""
+    res = core.run_tlc(ctx, "MC_SNMPWalk", "MC_SNMPWalk.cfg", timeout=600, workers=1)
+    expect = {}
+    for v in core.parse_printed_json(res, tag="EXPECT"):
+        expect[v["why"]] = expect.get(v["why"], 0) + 1
+    ctx.note("snmp_walk_design_expectations_failing", expect)
+    r = ctx.rng
+    n = 20
+    scripts = [("success", 0)] + [(k, i) for k in ("timeout", "refused") for i in (1, 2, 7, n)]
+    cases = [(c, p, h) for c in ("public", "hytera") for p in scripts for h in scripts]
+    r.shuffle(cases)
+    cases = cases[:60 if ctx.quick else len(cases)]
+    with Pool(core.NCPU) as pool:
+        parts = pool.map(snmp_run, [(ctx.seed + i, cases[i::8]) for i in range(8)])
+    obs = sum(parts, [])
+    for o in obs:
+        ctx.count(core.digest(["snmp", o["c"], o["pub"], o["hyt"], o["ret"], o["out"]]))
+    path = os.path.join(ctx.rundir, "c18_snmp.json")
+    json.dump({"cases": obs}, open(path, "w"))
+    res = core.run_tlc(ctx, "MC_SNMPWalk", "MC_SNMPWalk_judge.cfg", env={"DATA_FILE": path}, timeout=600)
+    if not res.ok or res.distinct < len(obs):
+        raise core.MachineryError(f"TLC did not judge all SNMP observations ({res.distinct} < {len(obs)})")
+    drift = {}
+    for v in core.parse_printed_json(res, tag="DRIFT"):
+        drift.setdefault(v["why"], []).append(obs[v["idx"]])
+    for why, items in sorted(drift.items()):
+        ctx.model_drift(f"SNMP walk: {why} for {len(items)} scripts, first {json.dumps(items[0])}")
+    raised = [o for o in obs if o["out"] == "raise"]
+    partial = [o for o in obs if o["out"] == "ok" and 0 < o["ret"] < n]
+    ctx.note("snmp_walk", {"scripts": len(obs), "raised": len(raised), "partial_reads_returned": len(partial)})
+    if raised and "NeverRaises" in expect:
+        ctx.outside(f"SNMP.walk_ip: a request that times out makes the call raise {raised[0]['exc']} ({len(raised)} of {len(obs)} scripts): the except "
+                    "clause meant to fall back to the other community names a module (puresnmp.api) in its tuple, so matching any exception against it "
+                    "fails - the fallback to the other community never runs")
+    if partial and "AllOrNothing" in expect:
+        ctx.outside(f"SNMP.walk_ip: a refused request after some answered ones returns the values read so far ({len(partial)} of {len(obs)} scripts); "
+                    "Repeater.read_snmp_values patches the record with that partial read")
+
+
 # ------------------------------------------------------------------------------ run
 
 P2PCFG = """SPECIFICATION Spec
@@ -611,6 +700,7 @@ def run(ctx):
         judge(ctx, part, ctx.validate_traces("Trace_RDAC", "Trace_RDAC.cfg", part), "random history", "rdac")
     startup_phase(ctx)
     rdacloop_phase(ctx)
+    snmp_phase(ctx)
 
 
 def replay(ctx, rec):
